@@ -1,4 +1,7 @@
-import HickoryVerif.Drv.Proto
+/-
+C02 driver (stage 1): encoder scripts, see `Drv/EncScript.lean`.
+-/
+import HickoryVerif.Drv.EncScript
 
 namespace HickoryVerif.Drv.C02
 open HickoryVerif HickoryVerif.Drv
@@ -6,6 +9,10 @@ open HickoryVerif HickoryVerif.Drv
 abbrev State := Unit
 def init : State := ()
 
-def step (s : State) (_toks : List String) : State × String := (s, "bad-op")
+def step (s : State) (toks : List String) : State × String :=
+  match toks with
+  | "enc" :: _ => (s, EncScript.handle toks)
+  | "encx" :: _ => (s, EncScript.handle toks)
+  | _ => (s, "bad-op")
 
 end HickoryVerif.Drv.C02
